@@ -1297,12 +1297,16 @@ class DocutilsRenderer(RendererProtocol):
         for key, value in data.items():
             if not isinstance(value, str | int | float | date | datetime):
                 # (YAML values such as !!binary or !!set are not JSON serializable)
-                value = json.dumps(
-                    value,
-                    default=lambda o: sorted(map(str, o))
-                    if isinstance(o, set)
-                    else str(o),
-                )
+                try:
+                    value = json.dumps(
+                        value,
+                        default=lambda o: sorted(map(str, o))
+                        if isinstance(o, set)
+                        else str(o),
+                    )
+                except TypeError:
+                    # (mapping keys that JSON does not allow, such as dates)
+                    value = str(value)
             value = str(value)
             body = nodes.paragraph()
             body.source, body.line = self.document["source"], line
